@@ -220,6 +220,26 @@ def build(repo=REPO, force=False, canary=None, verify_only=None, quiet=False, ex
             args += ['--verify-function', verify_fn]
         v = vrun.run_verus(gpath, args)
         fails, tool = classify(v['diags'], asm)
+        # a construct Verus cannot translate inside ONE function must not make every property undecided: such units are
+        # re-emitted as external_body (recorded in auto_external; any property whose scope contains one of them is exit 2)
+        auto_external = {}
+        for _round in range(4):
+            culprits = {}
+            for t in tool:
+                ln = t.get('line')
+                if ln is None: continue
+                best = None
+                for u in asm['units']:
+                    if u.gen_lo and u.gen_lo <= ln <= u.gen_hi and u.kind == 'verified':
+                        if best is None or (u.gen_hi - u.gen_lo) < (best.gen_hi - best.gen_lo): best = u
+                if best is not None: culprits[best.path.split('@')[0]] = t['message'][:160]
+            if not culprits or canary or verify_fn: break
+            auto_external.update(culprits)
+            for pth, why in auto_external.items(): sp.external[pth] = 'AUTO: ' + why
+            asm = gen.assemble(repo, sp, rows=rows_mod, canary=canary, opts=dict(prelude_files=pre))
+            open(gpath, 'w').write(asm['text'])
+            v = vrun.run_verus(gpath, args)
+            fails, tool = classify(v['diags'], asm)
         fstats = {}
         try:
             for mod in v['out']['times-ms']['smt']['smt-run-module-times']:
@@ -238,7 +258,7 @@ def build(repo=REPO, force=False, canary=None, verify_only=None, quiet=False, ex
         r = dict(key=key, cache='miss', gen_path=gpath, verus_cmd=v['cmd'], verus_rc=v['rc'], wall=time.time() - t0,
                  verus_wall=v['wall'], fails=fails, tool=tool, fstats=fstats, verified=vr.get('verified'),
                  errors=vr.get('errors'), units=units, clauses=unit_clauses(asm), callgraph={k: sorted(x) for k, x in call_graph(asm).items()},
-                 stats=asm['stats'], registry=asm['registry'], scan=scan,
+                 stats=asm['stats'], registry=asm['registry'], scan=scan, auto_external=auto_external,
                  stderr_other=[l for l in v['stderr_other'] if 'rust_verify/src/verifier.rs' not in l and '&note' not in l and '&sp.as_string' not in l][:40],
                  verus_version=((v['out'] or {}).get('verus') or {}).get('version'))
         if v['out'] is None:
